@@ -30,9 +30,13 @@ peg::parser! {
                 json
             }
 
+        // A JSON string: braces inside it are text, not structure
+        rule json_string()
+            = "\"" ( "\\" [_] / (!['"' | '\\'] [_]) )* "\""
+
         // Match balanced braces and capture everything including the braces
         rule balanced_braces() -> &'input str
-            = json:$( "{" (balanced_braces() / (!"}" [_]))* "}" ) {
+            = json:$( "{" (json_string() / balanced_braces() / (!"}" [_]))* "}" ) {
                 json
             }
 
